@@ -53,7 +53,9 @@ ASSUMPTIONS = [
     "clause 4: 'save' means the binary saves TTFont.save, TTCollection.save, subset.save_font, ttx.ttCompile; "
     "failpoints after the destination has been opened (non-atomic write) are out of scope, table-compile failures "
     "are always in scope; streaming saveXML is not a 'save' in this sense",
-    "resource-exhaustion payloads are bounded by a watchdog; a firing watchdog is inconclusive, never a violation",
+    "resource-exhaustion payloads are bounded by a watchdog; a firing watchdog is inconclusive, never a violation; damaged "
+    "table payloads that make a decompiler loop or allocate without bound (e.g. a cmap format 12 group spanning 2**31 code "
+    "points) are bounded per variant by a 40 s watchdog and a 4 GiB address-space limit and counted as not judged",
 ]
 REQUIRED_MONITORS = [
     "SFNTReader.__init__", "SFNTReader.__getitem__", "readTTCHeader", "WOFF2Reader.__init__",
@@ -153,6 +155,17 @@ def setup():
 
     audit.install()
     sys.addaudithook(_boundary_hook)
+    # damaged counts can make a decompiler allocate without bound inside one C call (no signal can interrupt
+    # that): cap the worker's address space so that it ends as MemoryError instead of an OOM kill
+    try:
+        import resource
+
+        soft, hard = resource.getrlimit(resource.RLIMIT_AS)
+        lim = 4 << 30
+        if hard == resource.RLIM_INFINITY or hard > lim:
+            resource.setrlimit(resource.RLIMIT_AS, (lim, hard))
+    except Exception:
+        pass
 
 
 def _boundary_hook(event, args):
@@ -788,6 +801,11 @@ def run_payload(case, ctx, rnd):
                 _cur["fallback"] = _cur["writer_in"] = None
                 ctx.note("clause2:variant stopped by the 40 s watchdog (resource exhaustion, not judged)")
                 ctx.skip("damaged payload variant exceeded the watchdog")
+            except MemoryError:
+                # e.g. a cmap format 12 group whose damaged end code spans 2**31 code points
+                _cur["fallback"] = _cur["writer_in"] = None
+                ctx.note("clause2:variant stopped by the address-space limit (resource exhaustion, not judged)")
+                ctx.skip("damaged payload variant exceeded the memory limit")
     ctx.note("clause2:target table fell back to raw bytes", n_fb)
     ctx.note("clause2:damaged payload still decoded", n_dec)
     ctx.note("clause2:saves completed", n_saved)
